@@ -172,7 +172,13 @@ func (l *listener) handle(conn net.Conn) {
 
 	buf := bufPool.Get().([]byte)
 	buf = buf[:0]
-	defer bufPool.Put(buf)
+	defer func() {
+		// a hijacked connection still reads its prefetched bytes from buf after handle returns,
+		// so the buffer must not go back to the pool where another connection would reuse it
+		if !errors.Is(err, errHijacked) {
+			bufPool.Put(buf)
+		}
+	}()
 
 	cx := WrapConnection(conn, buf, l.logger)
 	cx.Context = context.WithValue(cx.Context, listenerCtxKey, l)
